@@ -25,16 +25,32 @@ def make_case(idx, seed, logics, vectors, hist_ratio=0.35, big=False):
     logic = logics[idx % len(logics)]
     opts = vectors[(idx // len(logics)) % len(vectors)]
     r = rng.random()
-    if r < hist_ratio / 2 and ":incremental false" not in opts:
+    if ("IDL" in logic or "RDL" in logic) and rng.random() < 0.4:
+        f = rng.choice([gen.dl_conjunction, gen.dl_paths, gen.dl_chain, gen.dl_chain])
+        p, asserts, script = f(logic, rng, options=opts)
+        return {"idx": idx, "logic": logic, "options": opts, "kind": f.__name__.replace("_", "-"), "script": script}
+    if r < 0.08 and ":incremental false" not in opts:
+        p, script, checks = gen.sibling_history(logic, rng, options=opts, big=big)
+        kind = "sibling-history"
+    elif r < hist_ratio / 2 and ":incremental false" not in opts:
         p, script, checks = gen.clausal_history(logic, rng, options=opts)
         kind = "clausal-history"
-    elif r < hist_ratio:
+    elif r < hist_ratio and ":incremental false" not in opts:      # assertions after a check-sat need incremental mode
         p, script, checks = gen.history(logic, rng, options=opts, big=big)
         kind = "history"
     else:
         p, asserts, script = gen.single_query(logic, rng, options=opts, big=big)
         kind = "single"
     return {"idx": idx, "logic": logic, "options": opts, "kind": kind, "script": script}
+
+
+def make_dl_case(idx, seed, logics=("QF_IDL", "QF_RDL", "QF_IDL", "QF_UFIDL")):
+    """difference-logic graph shapes (chains with longer direct edges, shortest-path bounds): cheap, run in numbers"""
+    rng = random.Random(f"engine-dl-{seed}-{idx}")
+    logic = logics[idx % len(logics)]
+    f = [gen.dl_chain, gen.dl_chain, gen.dl_paths][idx % 3]
+    p, asserts, script = f(logic, rng)
+    return {"idx": f"dl{idx}", "logic": logic, "options": [], "kind": f.__name__.replace("_", "-"), "script": script}
 
 
 def make_big_case(idx, seed, logics=("QF_UF", "QF_UFLIA", "QF_UFLRA", "QF_LRA", "QF_IDL", "QF_LIA")):
